@@ -1,4 +1,4 @@
-From Errdef Require Import Base.Str Base.Outcome Model.Value Model.Resolver Proofs.ResolverProofs Check.C14.
+From Errdef Require Import Base.Str Base.Outcome Model.Value Model.Resolver Model.ResolverGen Gen.ResolverSrc Proofs.ResolverProofs Check.C14.
 
 Lemma res_eqb_eq a b : res_eqb a b = true <-> a = b.
 Proof.
@@ -29,21 +29,60 @@ Proof.
   destruct (eval_pred p v); [reflexivity|exact IH].
 Qed.
 
+(* ---------- the interpreters of the generated tables are the transcription, on the current source ---------- *)
+Lemma compact_by_identity l : wf_defs l ->
+  compact_by (fun a b => N.eqb (rd_id a) (rd_id b)) l = compact l.
+Proof.
+  induction l as [|x l IH]; intros Hwf; [reflexivity|].
+  destruct l as [|y r]; [reflexivity|].
+  specialize (IH (wf_tail _ _ Hwf)).
+  cbn [compact_by compact_from compact] in *.
+  destruct (N.eqb (rd_id x) (rd_id y)) eqn:E.
+  - apply N.eqb_eq in E. assert (x = y) by (apply Hwf; [now left|right; now left|exact E]). subst y.
+    exact IH.
+  - rewrite IH. reflexivity.
+Qed.
+
+Lemma g_new_resolver_ref defs : wf_defs defs -> g_new_resolver defs = new_resolver defs.
+Proof.
+  intros Hwf. unfold g_new_resolver, new_resolver.
+  change (cpred_fn new_compact_pred) with (fun a b : rdef => N.eqb (rd_id a) (rd_id b)).
+  rewrite (compact_by_identity _ Hwf). reflexivity.
+Qed.
+Lemma g_resolve_kind_ref r k : g_resolve_kind r k = resolve_kind r k.
+Proof. reflexivity. Qed.
+Lemma g_resolve_field_func_ref r key eq : g_resolve_field_func r key eq = resolve_field_func (r_defs r) key eq.
+Proof. reflexivity. Qed.
+Lemma g_resolve_field_ref r key want : g_resolve_field r key want = resolve_field r key want.
+Proof. reflexivity. Qed.
+Lemma g_resolve_kind_or_default_ref r d k : g_resolve_kind_or_default r d k = resolve_kind_or_default r d k.
+Proof. reflexivity. Qed.
+Lemma g_resolve_field_or_default_ref r d key want :
+  g_resolve_field_or_default r d key want = resolve_field_or_default r d key want.
+Proof. reflexivity. Qed.
+Lemma g_resolve_field_func_or_default_ref r d key eq :
+  g_resolve_field_func_or_default r d key eq = or_default_out d (resolve_field_func (r_defs r) key eq).
+Proof. reflexivity. Qed.
+Lemma source_shape : source_shape_ok = true.
+Proof. reflexivity. Qed.
+
 (* the model computes the specification on the whole domain *)
 Lemma model_is_spec c : wf_defs (c_defs c) -> in_domain c = true -> model c = spec c.
 Proof.
   intros Hwf Hd. apply andb_true_iff in Hd as [Hf Hl]. apply fields_okb_defs_ok in Hf.
-  unfold model, spec. destruct (c_lookup c) as [k|k|key w|key w|key p|key p]; cbn in Hl.
-  - now rewrite resolve_kind_first.
-  - unfold resolve_kind_or_default. rewrite resolve_kind_first by assumption.
+  unfold model, spec. rewrite (g_new_resolver_ref _ Hwf).
+  destruct (c_lookup c) as [k|k|key w|key w|key p|key p]; cbn in Hl.
+  - rewrite g_resolve_kind_ref. now rewrite resolve_kind_first.
+  - rewrite g_resolve_kind_or_default_ref. unfold resolve_kind_or_default. rewrite resolve_kind_first by assumption.
     destruct (spec_kind (c_defs c) k); reflexivity.
-  - now rewrite resolve_field_first.
-  - unfold resolve_field_or_default. rewrite resolve_field_first by assumption.
+  - rewrite g_resolve_field_ref. now rewrite resolve_field_first.
+  - rewrite g_resolve_field_or_default_ref. unfold resolve_field_or_default. rewrite resolve_field_first by assumption.
     destruct (spec_field (c_defs c) key w); reflexivity.
-  - cbn [new_resolver r_defs]. rewrite func_find. unfold spec_func.
+  - rewrite g_resolve_field_func_ref. cbn [new_resolver r_defs]. rewrite func_find. unfold spec_func.
     now rewrite find_compact.
-  - cbn [new_resolver r_defs]. rewrite func_find. unfold spec_func.
-    now rewrite find_compact.
+  - rewrite g_resolve_field_func_or_default_ref. cbn [new_resolver r_defs]. rewrite func_find. unfold spec_func.
+    rewrite find_compact by assumption. cbn [or_default_out res_of_rdef].
+    destruct (find _ (c_defs c)); reflexivity.
 Qed.
 
 Lemma corr_implies_ok c : wf_defs (c_defs c) -> corr c = true -> ok c = true.
